@@ -527,6 +527,13 @@ class Judge:
         for x in (a, b):
             if (x[0], t) in self.between or (x[0] == "K" and self.K[t] is None):
                 return
+        # the callbacks of the two calls are made after the table lock is released: their order in the stream need not be the
+        # order in which the table changed, so the replayed stream is re-based on the table at the next log (the contents after
+        # the pair are still judged, against the two serial orders)
+        if not hasattr(self, "pair_dirty"):
+            self.pair_dirty = set()
+        for x in (a, b):
+            self.pair_dirty.add((x[0], t))
         try:
             got = [int(rw[0]), int(rw[1])]
         except (ValueError, IndexError):
@@ -728,6 +735,12 @@ class Judge:
                     R.add(rec)
                 else:
                     R.discard(rec)
+            if key in getattr(self, "pair_dirty", set()):
+                self.pair_dirty.discard(key)
+                if S is not None:
+                    R.clear()
+                    R.update(S)
+                return
             if cb and S is not None and self.logok[key] and key not in self.between and not getattr(self, "sync_expect", None):
                 if R != S:
                     self.fail("log", "callback stream does not mirror the table: only in stream %s, only in table %s" % (
